@@ -14,18 +14,10 @@ def reg(p):
     PROPS[p.pid] = p
 
 
-reg(Prop(
-    'C06',
-    [Harness('c06_exact', parts=16, slices=6, thorough_cfg='asan1')],
-    rule='Every registered function x instantiation is evaluated on: all values of the 8/16-bit types (all pairs of 8-bit '
-         'values; 16-bit pairs on lattice+random in quick, all pairs in thorough), the [0,2047]^2 / [-1024,1023]^2 squares '
-         'for ceil_div/ceil_div_signed<32 bit>, the boundary lattice (0,+-1,2^k+-2,min,max) and seeded random values for '
-         '32/64-bit types. The result is compared with __int128 arithmetic. evaluations counts single library calls judged; '
-         'a case for the distinct count is one row (function, instantiation, first operand, set of second operands) or one '
-         'chunk of unary inputs, hashed canonically; inputs whose exact result is not representable are skipped and counted.',
-    assumptions=COMMON_ASSUMPTIONS + ['inputs whose mathematically exact result (or the machine quotient a/b) is not representable are out of scope by the statement and skipped; log2(0) is documented as undefined and skipped'],
-    exhaustive_spaces=['all values of every 8/16-bit source type for all 64 truncation_check pairs',
-                       'all pairs of 8-bit operands for mod/div/diff/clamp',
-                       'ceil_div<u32> on [0,2047]^2, ceil_div_signed<i32> on [-1024,1023]^2',
-                       'thorough: all pairs of 16-bit operands for mod/div/diff'],
-))
+# every lib/vf/props_cNN.py module registers its property by calling reg(Prop(...))
+import glob as _glob
+import importlib as _importlib
+import os as _os
+
+for _f in sorted(_glob.glob(_os.path.join(_os.path.dirname(__file__), 'props_c*.py'))):
+    _importlib.import_module('vf.' + _os.path.basename(_f)[:-3])
